@@ -32,6 +32,9 @@ def run(chk):
              "not change which way a cross-product test goes)")
     chk.rule("IP.on-edge", "an intersection point clamped into its scanbeam gets its x recomputed on one of the two edges at the clamped y (a translated or "
              "mirrored input reaches this branch at other vertices; the result must not depend on it)")
+    chk.rule("POLY.measure", "GetClosestPointOnSegment (used to pull an out-of-scanbeam intersection back onto a nearly horizontal edge - a branch taken for one "
+             "placement of a figure and not for its transpose or mirror image), CrossProduct, DotProduct, DistanceSqr and PerpendicDistFromLineSqrd are their "
+             "defining polynomials: the returned point minus offPt is perpendicular to the segment and lies on its line (engine E14)")
     chk.rule("POLY.topx", "TopX is the x of the line through bot and top at the given y (with dx = GetDx(bot, top) as SetDx stores it); every shortcut "
              "return agrees with the general formula under its guard (identity of polynomial normal forms)")
     chk.rule("T.symmetry", "T(Positive, wc, wc2) == T(Negative, -wc, -wc2); NonZero invariant under negation; T independent of own path "
@@ -74,6 +77,7 @@ def run(chk):
         e14.rule_cross(db, chk, cfg)
         e3.ip_on_edge_rule(db, chk, cfg)
         e14.rule_topx(db, chk, cfg)
+        e14.rule_measure(db, chk, cfg)       # GetClosestPointOnSegment: only reached for some placements / orientations of the same figure
     chk.floor("T.symmetry", 1700 * len(cfgs))
     chk.floor("T.comparator", 1600 * len(cfgs))
     chk.exhaustive = True
